@@ -7,6 +7,7 @@ struct fs_file fs_files[FS_NFILES];
 int fs_fd_file[FS_FD_MAX + 1];
 int fs_bad_fd_ops, fs_opens, fs_closes, fs_pwrites, fs_short_writes, fs_write_errors;
 int fs_faults_enabled, fs_short_writes_enabled;
+int fs_short_writes_max = 1 << 30; /* after this many short writes the OS takes whole requests (bounds the resume loop) */
 int fs_fail_pwrite_from = -1, fs_fail_pwrite_at = -1, fs_fail_open_at = -1, fs_fail_flock_at = -1;
 int fs_flocks;
 static int verif_errno_;
@@ -99,6 +100,7 @@ SYS(pwrite)(int fd, const void* buf, size_t n, off_t off)
     if (fs_short_writes_enabled) {
         r = ND(size_t);
         VASSUME(r <= n);
+        if (fs_short_writes >= fs_short_writes_max) VASSUME(r == n);
         if (r < n) ++fs_short_writes;
     }
     verif_fs_pwrite_hook(fd, fs_fd_file[fd], (const uint8_t*)buf, n, (uint64_t)off, r);
